@@ -112,6 +112,12 @@ reg("C06",
     "Trusted: webencodings for labels; vf/ref/prescan.py (own transcription of the WHATWG prescan) and the reference tree constructor for the late-meta path. chardet absent. Known findings: html5lib's prescan variant (modelled separately), truncated multi-byte sequence at EOF. Three defects repaired.",
     "DESIGN.md §3 C06")
 
+reg("C09",
+    "property-based testing with an independent allow-list predicate (URL-standard scheme parsing, data: MIME essence, CSS declaration split) over attack-vocabulary markup, default and randomly restricted allow-lists",
+    "Exploration: obfuscated URL schemes (case, embedded TAB/LF/CR, leading controls, character references, prefixes), data: URLs with MIME variants, style attributes (properties, shorthand keywords, url( spellings, escapes, comments), SVG/MathML, namespaced attributes, comments, unknown elements - through parse, walk and the sanitizer filter with the default lists or seed-derived subsets of all ten constructor arguments; every output token is judged by the predicate, plus non-invention/inert-text checks. Held on everything explored.",
+    "Attribute values are judged as stored in the tree; numbers/units/colours in CSS values are not constrained. One defect (KeyError with restricted protocols) repaired.",
+    "DESIGN.md §3 C09")
+
 NOT_APPLICABLE = {}
 
 
